@@ -23,6 +23,13 @@ def check_case(ctx, cs):
         ctx.count(("hull", shape_key(sh), tuple(map(tuple, o["prm"]))), sample={"op": "hull", **small, "cert": o["cert"][:3]})
         lo, hi = frv(o["bbox"][0]), frv(o["bbox"][1])
         if sh["rat"]:
+            # the same definition with a weight corrected by get / edit / set: same box, same point
+            def eb():
+                ob = build(sh, edit_back=True)
+                return [list(x) for x in ob.bbox], ob.evaluate_single(prm[0] if pd == 1 else prm), [list(q) for q in ob.ctrlpts]
+            ok, r_ = _try(ctx, "abstract.bbox", tg + ["weights_corrected_by_edit_back"], small, eb)
+            if ok and not (close_seq(r_[0][0], lo) and close_seq(r_[0][1], hi) and close_seq(r_[1], frv(o["pt"]))):
+                ctx.violate("evaluate_single", tg + ["weights_corrected_by_edit_back"], small, {"bbox": r_[0], "point": r_[1]})
             # a translated COPY is made and its views are read first: the original keeps reporting its own box
             def fork():
                 cp = operations.translate(obj, [100.0] * obj.dimension)
